@@ -105,6 +105,19 @@ func checkC10(c *Ctx) {
 				c.Ob("C10.codec", pk, funcKey(rf), "tables-dropped-when-flag-clear", p.Pos(rf.Pos()), cleared, funcKey(rf)+": a domain decoded without the precompute flag keeps the tables its receiver held before (Twiddles()/CosetTable() then return the tables of another domain)")
 				c.Ob("C10.codec", pk, funcKey(rf), "tables-rebuilt-when-flag-set", p.Pos(rf.Pos()), ok, funcKey(rf)+": the accepting return at "+where+" is reachable with the decoded precompute flag set but without rebuilding the twiddle/coset tables from the decoded parameters: a receiver that already held tables keeps them (wrong coset)")
 			}
+			// ... and the rebuild itself is unconditional: every return of preComputeTwiddles has
+			// defined the four tables (the routine runs after the parameters changed; nothing the
+			// receiver held before is a function of the new shift)
+			if pt := p.Func(pk, "Domain", "preComputeTwiddles"); pt != nil {
+				ms := sharedEffects(p).Must(pt)
+				var missing []string
+				for _, f := range []string{"twiddles", "twiddlesInv", "cosetTable", "cosetTableInv"} {
+					if !covered(pt, ms.MustAll, Loc{0, "." + f}, 0) {
+						missing = append(missing, f)
+					}
+				}
+				c.Ob("C10.codec", pk, funcKey(pt), "tables-defined-on-every-return", p.Pos(pt.Pos()), len(missing) == 0, funcKey(pt)+": some return leaves "+strings.Join(missing, ", ")+" as the receiver held them before: a domain decoded into a used receiver keeps tables computed for another shift / generator")
+			}
 			sites, hits := rawReads([]*ssa.Function{rf})
 			_ = sites
 			reportFindings(c, p, "C10.codec", []*ssa.Function{rf}, hits, "no-raw-read")
